@@ -5,6 +5,7 @@ mod c03;
 mod c07;
 mod langs;
 mod c08;
+mod c13;
 mod strsweep;
 mod common;
 mod enumr;
@@ -41,6 +42,7 @@ fn main() {
                 "C03" => c03::run(tier),
                 "C07" => c07::run(tier),
                 "C08" => c08::run(tier),
+                "C13" => c13::run(tier),
                 _ => {
                     eprintln!("unknown property {id}");
                     2
@@ -58,6 +60,7 @@ fn main() {
                 "diff-text" => c02::replay_diff_case(case),
                 "c03-extra" => c03::replay_extra(case),
                 "c07" => c07::replay(case),
+                "c13-f64" => c13::replay_f64(case),
                 e => {
                     eprintln!("unknown replay engine {e}");
                     2
